@@ -19,7 +19,7 @@ class C04(Prop):
             ">= 2 connections actually interleave at the tap; distinct = distinct interleaving signatures")
     reach = ["same_hosts_diff_client_port", "same_client_port_diff_server", "same_server_diff_clients", "crossed_pair_same_ports", "same_server_same_client_port_other_client", "equal_initial_sequence_numbers", "quic_cid_begins_with_other_connections_cid",
              "resumption_shares_master_secret", "v4_v6_mixed",
-             "tls_quic_mixed", "quic_zero_len_cid", "noise", "quic_like_datagram_to_later_client_socket", "long_key_log_line_across_block_boundary", "quic_connection_closes_while_others_run", "secrets_block_per_connection", "n_ge_4", "policy_bursty", "policy_sequential"]
+             "tls_quic_mixed", "quic_zero_len_cid", "noise", "quic_like_datagram_to_later_client_socket", "long_key_log_line_across_block_boundary", "quic_connection_closes_while_others_run", "migration_vs_one_byte_id_of_other_connection", "secrets_block_per_connection", "n_ge_4", "policy_bursty", "policy_sequential"]
 
     def plan(self, tier):
         p = super().plan(tier)
@@ -100,7 +100,32 @@ class C04(Prop):
                     c["tcp"]["isn_c"], c["tcp"]["isn_s"] = o2["tcp"]["isn_c"], o2["tcp"]["isn_s"]
                     c["same_isn"] = True
             conns.append(c)
-        if quic_ok and idx % 11 == 4:
+        if quic_ok and idx % 13 == 6:
+            # a client changes its address mid-connection while an unrelated, earlier connection uses a one byte connection
+            # id that equals the first byte of the id the migrating client addresses (ids are chosen independently)
+            from .. import quicpeer
+            from ..rng import Rng as _R
+            used = set()
+            a = quicpeer.gen_quic_conn(R.fork("mig", "a"), 1, {"small": True, "v6_pct": 0, "zero_cid_pct": 0, "migrate_pct": 100,
+                                                               "one_way_pct": 0, "policy": "staggered"}, used)
+            b = quicpeer.gen_quic_conn(R.fork("mig", "b"), 0, {"small": True, "v6_pct": 0, "zero_cid_pct": 0, "one_way_pct": 0,
+                                                               "policy": "staggered"}, used)
+            if a.get("c_mig") and a["q"]["scid_s_len"] >= 2:
+                first = _R(a["sub"], "quic").fork("sscid").bytes(a["q"]["scid_s_len"])[:1]
+                side_ = E.choice(["c", "s"])
+                b["q"]["scid_%s_len" % side_] = 1
+                b["q"]["scid_%s_prefix" % side_] = first.hex()
+                b["q"]["ncid"] = {"s": 0, "c": 0}
+                a["q"].pop("ncid_len", None)
+                b["collide"] = None
+                a["collide"] = None
+                b["t"]["start_us"] = 0
+                a["t"]["start_us"] = 3000
+                conns = [b, a]
+                conns[0]["short_id_prefix_of_migrating"] = True
+                policy = "staggered"
+                n = 2
+        elif quic_ok and idx % 11 == 4:
             # close race: three QUIC connections to one server start one after the other and run concurrently; the one
             # created first is short and ends with CONNECTION_CLOSE while the others are still exchanging packets
             from .. import quicpeer
@@ -264,6 +289,8 @@ class C04(Prop):
             out.count("reach:n_ge_4")
         if spec.get("long_key_log"):
             out.count("reach:long_key_log_line_across_block_boundary")
+        if any(c.get("short_id_prefix_of_migrating") for c in conns):
+            out.count("reach:migration_vs_one_byte_id_of_other_connection")
         if any(c.get("closes_early") for c in conns):
             out.count("reach:quic_connection_closes_while_others_run")
         if spec.get("secrets_block_per_connection"):
